@@ -1,6 +1,7 @@
-"""C11 — evolution strategies: theorems (Props/C11.lean) + correspondence K-C11 between Model/CMA.lean
-(driver drv_c11) and the real CMA-ES, plus an independent oracle on CMA, CMSA, ElitistCMA, VD-CMA,
-CrossEntropyMethod and SimplexDownhill."""
+"""C11 — evolution strategies: theorems (Props/C11.lean) about strategy-parameter formulas regenerated from the C++
+(translate/cma_params.py -> Gen/CMAParams.lean) and about the models Model/CMA.lean, Model/ES.lean; correspondence K-C11 between
+the models (driver drv_c11) and the real CMA, ElitistCMA, CMSA, CrossEntropyMethod, SimplexDownhill; independent per-step oracle
+on CMA, CMSA, ElitistCMA, VD-CMA, CrossEntropyMethod and SimplexDownhill (7 runs per case incl. a re-initialised used object)."""
 import os, re, struct, subprocess, time
 from concurrent.futures import ThreadPoolExecutor
 from vlib import core
@@ -10,30 +11,39 @@ REPO_SOURCES = ["src/Algorithms/DirectSearch/CMA.cpp", "src/Algorithms/DirectSea
                 "src/Core/Random.cpp"]
 LAKE_TARGETS = ["SharkVerif.Props.C11", "drv_c11"]
 
-TRUST = ("Lean 4.33 kernel; axioms at most propext/Classical.choice/Quot.sound (audited per run); hand-written model "
-         "tied to the C++ by the correspondence harness (differential, generator-bounded); ")
+TRUST = ("Lean 4.33 kernel; axioms at most propext/Classical.choice/Quot.sound (audited per run); strategy-parameter formulas regenerated from the C++ "
+         "by translate/cma_params.py (T0), update rules hand-modelled and tied to the C++ by the correspondence harness (differential, generator-bounded); ")
 MANIFEST = dict(
-  text=("Theorems (Props/C11.lean) about an executable model of CMA-ES (CMA.cpp: doInit coefficient formulas, selection by sorting, "
-        "updatePopulation with hSig, rank-one + rank-mu covariance update, cumulative step-size adaptation and lower-bound clamp) for all dimensions, "
-        "population sizes, weights, variate streams, objectives and numbers of generations: rank_invariance (for every order-preserving phi the run on phi∘f with the same "
-        "variate stream has the same search distribution and reports the same points; key lemma select_relabel on the stable merge sort), "
-        "sigma_pos (step size positive in every generation, exp as a positive function parameter, incl. the clamp), coeffs_admissible (0<c1<1, 0<cmu<=1-c1, 0<csigma<1, 0<cc<=1 for all n>=1, mueff>=1) "
-        "and weights_normalised (positive, sum 1), cov_update_psd / cov_update_pd (a*C + c1*pp' + cmu*sum w_i y_i y_i' is symmetric PSD / PD; Mathlib Matrix.PosSemidef over the reals), "
-        "reported_value_is_f (reported value = fitness at the reported point after every generation), deterministic, elitist_monotone (+ value = f(point)) for the (1+1) acceptance rule. "
-        "Tie: CMA::doInit coefficients compared bit for bit with the Float instance of the model (same libm); CMA::updatePopulation re-computed generation by generation by the model from the real run's own "
-        "state, evaluated offspring and eigenvectors (one-step refinement, bit-identical or 1e-9). Independent oracle on the real CMA, CMSA, ElitistCMA, VDCMA, CrossEntropyMethod, SimplexDownhill after every step: "
-        "sigma>0 finite, covariance symmetric + Cholesky succeeds, value = f(closest feasible point) bit-exact, same seed => identical run, runs on f, 2f, f/8 and a piecewise-linear exact rescaling visit identical points, "
-        "elitist variants monotone, sphere convergence."),
-  note=TRUST + "not modelled (parameters of the model / oracle only): the random variates and the eigendecomposition of MultiVariateNormalDistribution::update (the model takes the sampled offspring and the eigenvectors as inputs); "
-       "cov_update_psd is stated on Mathlib matrices, the list-based covUpdate of the executable model is the same formula but the two are not formally connected; "
-       "the noise-handling branch of CMA::step (function.isNoisy()) is not modelled; CMSA, ElitistCMA's covariance update, VD-CMA, CEM and simplex downhill have no Lean model — they are covered by the harness oracle only; "
-       "convergence on the sphere is numerical (value <= 1e-10 within the budget). Known findings on the unchanged tree (known_findings.json, findings_proposed/C11.md): F12 VD-CMA turns NaN after stagnating, "
-       "F13 the CMA covariance matrix drifts away from symmetry (relative asymmetry > 1e-9 after ~100 generations; oracle tolerance 1e-9*sqrt(CiiCjj)+1e-16). Observation (not a violation of C11 as stated): CMA/CMSA rank offspring by unpenalizedFitness (Individual::FitnessOrdering), so the PenalizingEvaluator penalty never influences selection.",
-  technique="Lean 4 proofs (induction over generations, stable-sort congruence, Mathlib PosSemidef) + differential correspondence and property oracle on the C++ (ASan/UBSan)",
-  design="§6 C11")
+  text=("Theorems (Props/C11.lean) about executable models of the direct-search methods C11 names, for all dimensions, population sizes, recombination types, "
+        "variate streams, objectives and numbers of steps. "
+        "(1) Strategy parameters: the formulas of CMA::doInit, CMSA::doInit, VDCMA::init, the CMAChromosome constructor (ElitistCMA) and LMCMA::init are REGENERATED from the C++ on every run "
+        "(Gen/CMAParams.lean) and proved admissible: doInit_admissible (end to end, for every n>=1, mu>=1, each recombination type, log strictly increasing: mu weights, positive, non-increasing in the rank, "
+        "sum 1, mu_eff>=1, 0<c1<1, 0<cmu<=1-c1, 0<csigma<1, 0<cc<=1, dsigma>=1+csigma), cmsa_consts_admissible (cC>1, shrink factor 1-1/cC>0, the covariance update is a convex combination), "
+        "ecma_consts_admissible (all six rates in range), vdcma_rates_of_correction + vdcma_correction_ok (admissible for every n>=1 since the repair of F14; vdcma_head_formula_not_positive records that the earlier formula was not positive for n<=5). "
+        "(2) CMA-ES (Model/CMA.lean): rank_invariance (every order-preserving phi, same variate stream => same search distribution and reported points; key lemma on the stable merge sort), sigma_pos incl. the lower-bound clamp, "
+        "cov_update_psd / cov_update_pd (Mathlib PosSemidef/PosDef over the reals), reported_value_is_f, deterministic. "
+        "(3) Every comparison-based strategy (Model/ES.lean Strategy: sample, evaluate, stable-sort selection, update from the selected; instance: cross-entropy method): generic_rank_invariance, generic_value_is_f. "
+        "(4) ElitistCMA::step with CMAChromosome::updateAsOffspring/updateAsParent: ecma_sigma_pos, ecma_pSucc_unit, ecma_elitist_monotone (real three-way success rule with the history of accepted values: the reported value never increases "
+        "and the point changes only with it), active_update_admissible (the shortened unlearning rate keeps (1+r)-r|z|^2>0 for every z), ecma_factor_valid. "
+        "(5) remora's Cholesky rank-one update (CMSA, ElitistCMA): cholUpdate_diag_pos / cholUpdate_valid (whenever the update returns, the factor has a positive diagonal again, for every alpha>0, any beta, any v), cmsa_factor_valid, cmsa_sigma_pos. "
+        "(6) cem_variance_nonneg; SimplexDownhill: simplex_best_monotone(_run), simplex_value_is_f. "
+        "Tie, on every run: all strategy constants of CMA/CMSA/VD-CMA/ElitistCMA/LM-CMA objects initialised through their public interface are compared bit for bit with the Float instance of the regenerated formulas; "
+        "CMA::updatePopulation, ElitistCMA::step, CMSA::updatePopulation and CrossEntropyMethod's update are re-computed step by step by the models from the real run's own state and samples (one-step refinement; ECMA/CMSA/CEM bit-identical, CMA bit-identical or 1e-9 behind BLAS/eigensolver); "
+        "whole SimplexDownhill runs are re-computed from the starting point (objective evaluated in Lean) and compared bit for bit. "
+        "Independent oracle on the real CMA (all recombination types, user-set lambda from 2 to 200 incl. lambda >> n), CMSA, ElitistCMA, VD-CMA, CrossEntropyMethod (user-set population / selection / variance), SimplexDownhill, n from 1 to 60, after init and after every step: "
+        "sigma>0 finite; covariance symmetric + own Cholesky (CMA) / valid Cholesky factor (CMSA, ElitistCMA) / D finite non-zero, v finite, |v|>0 (VD-CMA) / variance finite >=0 (CEM); mean and paths finite; weights positive, non-increasing, sum 1; learning rates in range; "
+        "value = f(closest feasible point) bit-exact; 7 runs per case with the same seed: fresh, fresh, RE-INITIALISED used object, and f rescaled by 2, 1/8 and a piecewise-linear exact map (identical points and step sizes); elitist variants monotone; best <= every simplex vertex; sphere convergence for all six methods."),
+  note=TRUST + "not modelled (inputs of the models): the random variates and the eigendecomposition of MultiVariateNormalDistribution::update; VD-CMA's updateStrategyParameters has no Lean model (constants regenerated and compared, update covered by the oracle only; "
+       "generic_rank_invariance applies to any update function but VD-CMA's is not tied); cov_update_psd is stated on Mathlib matrices, the list-based covUpdate of the executable model is the same formula but the two are not formally connected; "
+       "cholUpdate_diag_pos proves validity of the returned factor, not that L'L'^T equals alpha*LL^T+beta*vv^T; simplex rank invariance and CEM/simplex convergence are oracle-only; the noise-handling branch of CMA::step (function.isNoisy()) is outside the property (deterministic objective); "
+       "ElitistSelection uses std::sort (unstable beyond 16 elements): generations with tied fitness among more than 16 offspring are counted, not compared; convergence on the sphere is numerical (value <= 1e-10 within the budget; CEM: 1e-6 and dimension <= 2 only, because the noise-free cross-entropy method with 10 of 100 parents converges prematurely in higher dimension: n=5, seed 862289 stalls at 3.6e-3). "
+       "Known findings on the unchanged tree (known_findings.json, findings_proposed/C11.md): F14 VD-CMA learning rates negative for n<5 and zero for n=5 (patch C11-F14-vdcma-correction-floor.patch, validated) and its consequence F12 (VD-CMA turns NaN after stagnating), "
+       "F13 the CMA covariance matrix drifts away from symmetry (oracle tolerance 1e-9*sqrt(CiiCjj)+1e-16), F15 CMA with a feasibility box whose optimum lies on the boundary and a large population loses positive definiteness of C and the eigensolver throws (thorough tier; corpus f15). CMA traces do not start at |x0| ~ 1e6 (cancellation in x - mean exceeds the 1e-9 tolerance of the C comparison; such starts are kept in the run cases). Observations (not violations of C11 as stated): CMA/CMSA rank offspring by unpenalizedFitness, so the PenalizingEvaluator penalty never influences selection; LMCMA.h does not compile and LMCMA::step always throws; CMAChromosome::roundUpdate deviates from the paper by a factor c_cov.",
+  technique="Lean 4 proofs (induction over generations and over the columns of the Cholesky factor, stable-sort congruence, Mathlib PosSemidef) about regenerated formulas and hand-written models + differential correspondence and property oracle on the C++ (ASan/UBSan)",
+  design="§6 C11, §14")
 FINISH = dict(level="proof",
-              rule="coefficient cases: (n, lambda, mu, recombination) incl. the defaults; run cases: objective (sphere | integer strictly convex quadratic | Rosenbrock, optional box) x optimizer x seed x steps, "
-                   "each executed 5 times inside the harness (2x same seed, 3 rescalings); trace cases: CMA generations re-computed by the model; non-trivial = at least 5 steps")
+              rule="coefficient cases: (class, n, lambda, mu, recombination) incl. the defaults; run cases: objective (sphere | integer strictly convex quadratic | Rosenbrock | plateau | constant, optional soft box) x optimizer x population class x initial step size x x0 class x seed x steps, "
+                   "each executed 7 times inside the harness (2x fresh, re-initialised used object, 3 rescalings); trace cases: CMA / ElitistCMA / CMSA / CEM steps re-computed by the models, whole simplex runs; non-trivial = at least 5 steps")
 
 
 def fb(x):
@@ -45,24 +55,27 @@ def nums(xs):
 
 
 INF = float("inf")
-BOX_OK = ("cma", "cmsa", "ecma")      # optimizers declaring CAN_SOLVE_CONSTRAINED
+SOFTBOX_OK = ("cma", "cmsa")      # rank by the unpenalized fitness; see gen_opt
 
 
-def gen_objective(r, allow_box=True):
-    k = r.below(3)
-    if k == 0:
-        n = r.choice([2, 3, 4, 5, 6, 8])
-        ops, kind = ["obj sphere %d" % n], "sphere"
-    elif k == 1:
-        n = r.choice([2, 3, 3, 4, 5])
+def gen_objective(r, allow_box=True, kinds=("sphere", "quad", "rosen", "plateau"), dims=None):
+    kind = r.choice(list(kinds))
+    if kind == "sphere":
+        n = r.choice(dims or [1, 1, 2, 3, 4, 5, 6, 8])
+        ops = ["obj sphere %d" % n]
+    elif kind == "plateau":
+        n = r.choice(dims or [1, 2, 3, 4])
+        ops = ["obj plateau %d" % n]        # floor(4|x|^2)/4: ties between different points in every generation
+    elif kind == "quad":
+        n = r.choice(dims or [1, 2, 3, 3, 4, 5])
         M = [[r.range(-2, 2) for _ in range(n)] for _ in range(n)]
         kk = r.choice([1, 2, 4])
         A = [[sum(M[t][i] * M[t][j] for t in range(n)) + (kk if i == j else 0) for j in range(n)] for i in range(n)]
         b = [r.range(-4, 4) for _ in range(n)]
-        ops, kind = ["obj quad %d %s %s" % (n, nums(x for row in A for x in row), nums(b))], "quad"
+        ops = ["obj quad %d %s %s" % (n, nums(x for row in A for x in row), nums(b))]
     else:
-        n = r.choice([2, 3, 4])
-        ops, kind = ["obj rosen %d" % n], "rosen"
+        n = r.choice(dims or [1, 2, 3, 4])   # rosen 1 is the constant objective 0: every comparison is a tie
+        ops = ["obj rosen %d" % n]
     box = None
     if allow_box and r.chance(1, 3):
         lo = [-(r.choice([1, 2, 4]) / r.choice([1, 2])) for _ in range(n)]
@@ -76,69 +89,167 @@ def gen_objective(r, allow_box=True):
 
 def gen_x0(r, n, box):
     if box:
-        return [box[0][i] + (box[1][i] - box[0][i]) * r.range(0, 8) / 8 for i in range(n)]
-    return [r.range(-16, 16) / 4 for _ in range(n)]
+        return [box[0][i] + (box[1][i] - box[0][i]) * r.range(0, 8) / 8 for i in range(n)], "box"
+    k = r.below(10)
+    if k == 0:
+        return [0.0] * n, "zero"                                        # the optimum of sphere/plateau: value 0 from the start
+    if k == 1:
+        return [r.range(-16, 16) * 2.0 ** 18 for _ in range(n)], "huge"  # ~1e6
+    if k == 2:
+        return [r.range(-16, 16) * 2.0 ** -22 for _ in range(n)], "tiny"  # ~1e-6
+    if k == 3:
+        v = r.range(-8, 8) / 4
+        return [v] * n, "equal-coordinates"
+    return [r.range(-16, 16) / 4 for _ in range(n)], "generic"
 
 
-def gen_opt(r, n, boxed):
-    # soft boxes only for CMA and CMSA, which rank by the unpenalized fitness; ElitistCMA accepts on the *penalized*
-    # fitness and reports the unpenalized one, so with penalties neither monotonicity of the reported value nor rank
-    # invariance can be expected of it (and it refuses declared constraints anyway)
-    kind = r.choice(["cma", "cma", "cmsa"] if boxed else ["cma", "cma", "cma", "cmsa", "ecma", "vdcma", "cem", "simplex"])
-    if kind == "cma":
-        if r.chance(1, 2):
-            lam = r.range(4, 14); mu = r.range(1, lam - 1)
-        else:
-            lam, mu = 0, 0
-        return kind, "opt cma " + nums([lam, mu, r.below(3), r.choice([0, 0, 0.5, 1.0, 2.0])])
-    return kind, "opt " + kind
+SIGMAS = [0, 0, 0, 0.5, 1.0, 2.0, 2.0 ** -20, 2.0 ** 20]
+
+
+def gen_opt(r, n, boxed, kinds=None):
+    """(kind, op line, population class).  Soft boxes only for CMA and CMSA, which rank by the unpenalized fitness;
+    ElitistCMA accepts on the *penalized* fitness and reports the unpenalized one, so with penalties neither monotonicity
+    of the reported value nor rank invariance can be expected of it (and it refuses declared constraints anyway)"""
+    kind = r.choice(kinds or (["cma", "cma", "cmsa"] if boxed else ["cma", "cma", "cma", "cmsa", "cmsa", "ecma", "ecma", "vdcma", "vdcma", "cem", "simplex"]))
+    sigma = r.choice(SIGMAS)
+    if kind == "simplex":
+        return kind, "opt simplex", "-"
+    if kind == "ecma":
+        return kind, "opt ecma " + nums([0, 0, 0, sigma]), "-"
+    k = r.below(5)
+    if k <= 1:
+        lam, mu, pc = 0, 0, "default"
+    elif k == 2:
+        lam, mu, pc = 2, 1, "lambda=2"                        # smallest admissible population
+    elif k == 3:
+        lam = r.range(3, 16); mu = r.range(1, lam - 1); pc = "small"
+    else:
+        lam = r.choice([40, 64, 100, 200]) if n <= 3 else r.choice([30, 50, 80]); pc = "large-vs-n"   # mu_eff >> n^2: c_mu cap active
+        mu = r.choice([lam // 2, lam // 4, lam - 1, 1])
+    if kind == "cem" and lam:
+        lam = max(lam, 4); mu = max(2, min(mu, lam - 1))      # variance of a single parent is 0 for ever
+    return kind, "opt %s %s" % (kind, nums([lam, mu, r.below(3), sigma])), pc
 
 
 def gen_run_case(r, maxsteps):
     ops, n, kind, box = gen_objective(r)
-    okind, oline = gen_opt(r, n, box is not None)
+    okind, oline, pc = gen_opt(r, n, box is not None)
     ops.append(oline)
-    ops.append("run %d %d %s %s" % (r.range(1, 10 ** 6), r.range(1, maxsteps), fb(INF), nums(gen_x0(r, n, box))))
+    x0, xc = gen_x0(r, n, box)
+    ops.append("run %d %d %s %s" % (r.range(1, 10 ** 6), r.range(1, maxsteps), fb(INF), nums(x0)))
+    return ops, {"pop": pc, "x0": xc}
+
+
+def gen_reuse_case(r):
+    """re-initialisation of a used CMA object in high dimension (small c_sigma): stale per-run state (generation counter,
+    evolution paths, covariance) changes hSig within the first ~10 generations of the second run"""
+    n = r.choice([30, 40, 40, 60])
+    x0 = [r.choice([3.0, 3.0, -2.0, 0.5]) for _ in range(n)]
+    return ["obj %s %d" % (r.choice(["sphere", "sphere", "rosen"]), n), "opt cma",
+            "run %d %d %s %s" % (r.range(1, 10 ** 6), r.range(30, 40), fb(INF), nums(x0))]
+
+
+def gen_directed_case(r):
+    """far from the optimum with a small step size: selection is strongly directed, the evolution path of the step size
+    grows within the first generations and the stall indicator hSig (which depends on the generation counter) switches —
+    the situation in which stale state of a re-initialised object changes the run"""
+    if r.chance(2, 3):
+        # high dimension: small c_sigma, so the generation-counter normalisation of the path matters for ~10 generations
+        n = r.choice([20, 40, 40])
+        x0 = [r.choice([3.0, 3.0, -2.0, 0.5]) for _ in range(n)]
+        return ["obj %s %d" % (r.choice(["sphere", "rosen"]), n), "opt " + r.choice(["cma", "cma", "cma", "vdcma", "cmsa", "ecma"]),
+                "run %d %d %s %s" % (r.range(1, 10 ** 6), r.range(25, 40), fb(INF), nums(x0))]
+    n = r.choice([2, 3, 5, 8])
+    kind = r.choice(["cma", "cma", "vdcma", "cmsa"])
+    x0 = [r.choice([-1, 1]) * r.range(8, 16) * 2.0 ** r.choice([6, 10]) for _ in range(n)]
+    lam = r.choice([0, 0, 8, 12])
+    ops = ["obj sphere %d" % n, "opt %s %s" % (kind, nums([lam, lam // 2, 2, r.choice([2.0 ** -4, 2.0 ** -8, 1.0])])),
+           "run %d %d %s %s" % (r.range(1, 10 ** 6), r.range(8, 30), fb(INF), nums(x0))]
     return ops
 
 
 def gen_conv_case(r, steps):
-    n = r.choice([2, 3, 4, 5])
-    kind = r.choice(["cma", "cma", "cmsa", "ecma", "vdcma"])
-    budget = {"cma": steps, "cmsa": steps, "vdcma": 2 * steps, "ecma": 12 * steps}[kind]
-    return ["obj sphere %d" % n, "opt " + kind,
-            "run %d %d %s %s" % (r.range(1, 10 ** 6), budget, fb(1e-10), nums(gen_x0(r, n, None)))]
+    kind = r.choice(["cma", "cma", "cmsa", "ecma", "vdcma", "cem", "simplex"])
+    n = r.choice([1, 2, 3, 4, 5]) if kind != "vdcma" else r.choice([2, 3, 4, 5, 6, 8])
+    if kind == "cem":
+        n = r.choice([1, 2])    # 10 parents of 100: the maximum-likelihood variance collapses before the mean arrives in higher dimension
+                                # (n=5, seed 862289: stalls at 3.6e-3 after 600 steps) -- premature convergence inherent to the method without noise
+    budget = {"cma": steps, "cmsa": steps, "vdcma": 2 * steps, "ecma": 12 * steps, "cem": steps, "simplex": 3 * steps}[kind]
+    # CEM converges linearly to the precision of its variance estimate; the default variance 100 needs more steps
+    target = {"cem": 1e-6}.get(kind, 1e-10)
+    x0 = [r.range(-16, 16) / 4 for _ in range(n)]
+    return ["obj sphere %d" % n, "opt " + kind, "run %d %d %s %s" % (r.range(1, 10 ** 6), budget, fb(target), nums(x0))]
 
 
 def gen_trace_case(r, maxsteps):
-    ops, n, kind, box = gen_objective(r)
-    if r.chance(1, 2):
-        lam = r.range(4, 12); mu = r.range(1, lam - 1)
-    else:
+    ops, n, kind, box = gen_objective(r, dims=None)
+    k = r.below(4)
+    if k <= 1:
         lam, mu = 0, 0
+    elif k == 2:
+        lam = r.range(2, 12); mu = r.range(1, lam - 1)
+    else:
+        lam = r.choice([24, 40, 64]); mu = r.choice([lam // 2, lam // 4])
     ops.append("opt cma " + nums([lam, mu, r.below(3), r.choice([0, 0.5, 1.0])]))
-    ops.append("cmatrace %d %d %s" % (r.range(1, 10 ** 6), r.range(1, maxsteps), nums(gen_x0(r, n, box))))
+    x0, xc = gen_x0(r, n, box)
+    while xc == "huge":      # |mean| ~ 1e6 with sigma ~ 0.1: the cancellation in x - mean amplifies kernel-level rounding differences of C beyond the 1e-9 tolerance
+        x0, xc = gen_x0(r, n, box)
+    ops.append("cmatrace %d %d %s" % (r.range(1, 10 ** 6), r.range(1, maxsteps), nums(x0)))
     return ops
 
 
+def gen_model_traces(r, quick):
+    """one-step refinement traces for ElitistCMA, CMSA, CEM and whole deterministic runs of SimplexDownhill"""
+    out = []
+    k, steps = (10, 30) if quick else (100, 80)
+    for _ in range(k):     # ElitistCMA: no box (acceptance is on the penalized fitness); plateau makes unsuccessful/failed steps frequent
+        ops, n, kind, box = gen_objective(r, allow_box=False)
+        ops.append("opt ecma " + nums([0, 0, 0, r.choice(SIGMAS)]))
+        ops.append("ecmatrace %d %d %s" % (r.range(1, 10 ** 6), r.range(5, steps), nums(gen_x0(r, n, None)[0])))
+        out.append(ops)
+    for _ in range(k):
+        ops, n, kind, box = gen_objective(r)
+        _, oline, _ = gen_opt(r, n, box is not None, kinds=["cmsa"])
+        ops.append(oline)
+        ops.append("cmsatrace %d %d %s" % (r.range(1, 10 ** 6), r.range(2, steps // 2), nums(gen_x0(r, n, box)[0])))
+        out.append(ops)
+    for _ in range(k):
+        ops, n, kind, box = gen_objective(r, allow_box=False)
+        _, oline, _ = gen_opt(r, n, False, kinds=["cem"])
+        ops.append(oline)
+        ops.append("cemtrace %d %d %s" % (r.range(1, 10 ** 6), r.range(2, steps // 3), nums(gen_x0(r, n, None)[0])))
+        out.append(ops)
+    for _ in range(2 * k):
+        ops, n, kind, box = gen_objective(r, allow_box=False)
+        ops.append("opt simplex")
+        ops.append("simplexrun %d %s" % (r.range(1, 2 * steps), nums(gen_x0(r, n, None)[0])))
+        out.append(ops)
+    return out
+
+
 def gen_coeff_case(r):
+    kind = r.choice(["cma", "cma", "cma", "cmsa", "vdcma", "vdcma", "ecma", "lmcma"])
     n = r.choice(list(range(1, 21)) + [30, 50, 100, 200])
-    if r.chance(1, 2):
-        return ["coeffs %d 0 0 %d" % (n, r.below(3))]
-    lam = r.range(2, 40)
-    return ["coeffs %d %d %d %d" % (n, lam, r.range(1, lam - 1), r.below(3))]
+    if r.chance(1, 2) or kind == "ecma":
+        return ["coeffs %s %d 0 0 %d" % (kind, n, r.below(3))]
+    lam = r.choice([2, 3, r.range(2, 40), r.range(2, 40), r.range(41, 400)])
+    return ["coeffs %s %d %d %d %d" % (kind, n, lam, r.choice([1, lam - 1, r.range(1, lam - 1)]), r.below(3))]
 
 
 def case_info(ops):
-    info = {"opt": "?", "obj": "?", "n": 0, "box": False, "kind": "coeffs", "steps": 0}
+    info = {"opt": "?", "obj": "?", "n": 0, "box": False, "kind": "coeffs", "steps": 0, "lambda": 0}
     for o in ops:
         t = o.split()
         if t[0] == "obj": info["obj"], info["n"] = t[1], int(t[2])
         elif t[0] in ("box", "softbox"): info["box"] = True
-        elif t[0] == "opt": info["opt"] = t[1]
+        elif t[0] == "opt":
+            info["opt"] = t[1]
+            if len(t) > 2: info["lambda"] = int(struct.unpack("<d", struct.pack("<Q", int(t[2][1:], 16)))[0])
         elif t[0] == "run": info["kind"], info["steps"] = "run", int(t[2])
-        elif t[0] == "cmatrace": info["kind"], info["steps"], info["opt"] = "trace", int(t[2]), "cma"
-        elif t[0] == "coeffs": info["opt"] = "cma"
+        elif t[0] in ("cmatrace", "ecmatrace", "cmsatrace", "cemtrace"):
+            info["kind"], info["steps"] = "trace", int(t[2])
+        elif t[0] == "simplexrun": info["kind"], info["steps"], info["opt"] = "trace", int(t[1]), "simplex"
+        elif t[0] == "coeffs": info["opt"], info["n"], info["lambda"] = t[1], int(t[2]), int(t[3])
     return info
 
 
@@ -160,15 +271,22 @@ def run_case(ctx, hcmd, dcmd, ops, timeout=600, stats=None):
     if rc != 0:
         r.crash, r.ok = True, False
     dops, expect = [], []
+    lastobj = "sphere 0"
     for i, o in enumerate(ops):
+        if o.startswith("obj "): lastobj = o[4:]
         line = r.impl[i] if i < len(r.impl) else ""
         if "!oracle" in line:
-            r.oracle.append(line[:400]); r.ok = False
+            r.oracle.append(line.split(" !oracle")[0][:200] + " ... " + line[line.index("!oracle"):][:300]); r.ok = False
         payload = line.split(" !oracle")[0]
         if o.startswith("coeffs"):
             dops.append(o); expect.append(("equal", payload))
         elif o.startswith("cmatrace") and payload.startswith("trace"):
-            dops.append("xtrace " + payload); expect.append(("verdict", None))
+            dops.append("xtrace " + payload); expect.append(("verdict", "cma"))
+        elif o.split()[0] in ("ecmatrace", "cmsatrace", "cemtrace") and payload.startswith("trace"):
+            dops.append("x" + o.split()[0][:-5] + " " + payload); expect.append(("verdict", o.split()[0][:-5]))
+        elif o.startswith("simplexrun") and payload.startswith("simplex"):
+            t = o.split()
+            dops.append("xsimplex %s ## %s ## %s ## %s" % (lastobj, t[1], ",".join(t[2:]), payload)); expect.append(("verdict", "simplex"))
         else:
             dops.append(""); expect.append(("skip", None))
     pd = subprocess.run(dcmd, input="\n".join(dops) + "\n", stdout=subprocess.PIPE, stderr=subprocess.PIPE,
@@ -182,10 +300,11 @@ def run_case(ctx, hcmd, dcmd, ops, timeout=600, stats=None):
                 if r.diff_at is None: r.diff_at, r.why = i, "coefficients-differ"
                 r.ok = False
         elif ex == "verdict":
-            m = re.match(r"ok gens=(\d+) bits=(\d+) tol=(\d+)", got)
+            m = re.match(r"ok gens=(\d+) bits=(\d+) tol=(\d+) ties=(\d+)", got)
             if m and stats is not None:
-                stats["gens_bits"] = stats.get("gens_bits", 0) + int(m.group(2))
-                stats["gens_tol"] = stats.get("gens_tol", 0) + int(m.group(3))
+                stats[want + "_steps_bits"] = stats.get(want + "_steps_bits", 0) + int(m.group(2))
+                stats[want + "_steps_tol"] = stats.get(want + "_steps_tol", 0) + int(m.group(3))
+                stats["steps_skipped_unstable_ties"] = stats.get("steps_skipped_unstable_ties", 0) + int(m.group(4))
             if not m:
                 if r.diff_at is None: r.diff_at, r.why = i, "update-differs:" + got.replace(" ", "-")[:60]
                 r.ok = False
@@ -199,8 +318,13 @@ def classify(ops, res):
         m = re.search(r"ERROR: AddressSanitizer: (\S+)|runtime error: ([^\n]*)", res.stderr)
         tag = (m.group(1) or m.group(2)) if m else "crash"
         return f"crash:{info['opt']}:{tag[:40]}", f"harness aborted ({tag}) on ops {ops}"
-    if info["opt"] == "vdcma" and ("step-size-not-positive" in tags or "non-finite" in tags):
-        return ("F12:vdcma-nan-after-stagnation", f"VD-CMA reports NaN point / value / step size after stagnating on the sphere; ops {ops}")
+    if info["opt"] == "vdcma" and info["kind"] == "coeffs" and info["n"] <= 5 and tags == ["coefficients-inadmissible"]:
+        return ("F14:vdcma-learning-rates-not-positive:n<=5", f"VD-CMA learning rates c1 and cMu are negative (n<5) or zero (n=5): {res.impl[-1][:200]}; ops {ops}")
+    if info["opt"] == "vdcma" and info["n"] <= 5 and tags and set(tags) <= {"step-size-not-positive", "non-finite", "covariance-not-positive-definite", "mean-or-path-non-finite", "not-converged"}:
+        return ("F12:vdcma-nan-after-stagnation", f"VD-CMA reports NaN point / value / step size after stagnating (negative learning rates, F14); ops {ops}")
+    if info["opt"] == "cma" and info["box"] and info["kind"] == "run" and tags and set(tags) <= {"covariance-not-positive-definite", "exception"} \
+            and (not res.oracle or "exception" not in tags or "eigendecomposition" in res.oracle[0]):
+        return ("F15:cma-softbox-covariance-degenerates", f"CMA with a feasibility box (optimum on the boundary): covariance loses positive definiteness / eigensolver fails; ops {ops}")
     if info["opt"] == "cma" and "covariance-not-symmetric" in tags:
         return ("F13:cma-covariance-asymmetry", f"CMA covariance matrix is not symmetric beyond rounding ({res.oracle[0][-150:]}); ops {ops}")
     if tags:
@@ -266,16 +390,23 @@ def load_corpus():
     return out
 
 
+def translate(ctx):
+    return ctx.translate("cma_params.py")
+
+
 def build(ctx):
     return ctx.harness("c11", ["c11.cpp"], repo_sources=REPO_SOURCES)
 
 
 def run(ctx):
     ctx.trusted += ["correspondence harness harness/c11.cpp + generator checks/c11.py",
-                    "hand-written model Model/CMA.lean; eigendecomposition and random variates are inputs of the model",
+                    "translator translate/cma_params.py (C++ arithmetic with the usual promotions -> Lean; result compared bit for bit at Float on every run)",
+                    "hand-written models Model/CMA.lean, Model/ES.lean; eigendecomposition and random variates are inputs of the models",
                     "ASan/UBSan runtime for the real code's memory safety (not a theorem)"]
     ctx.assumptions += ["exp is a positive function, sqrt|last eigenvalue| > 0 (sigma_pos)", "phi is order preserving (rank_invariance)",
+                        "log strictly increasing on the positive rationals (weights), sqrt positive on positives (Cholesky update, CMSA c_sigma), pow non-negative (ElitistCMA unlearning rate)",
                         "covariance theorem over the reals (Mathlib), not over floating point"]
+    translate(ctx)
     ctx.prove(["SharkVerif.Props.C11"])
     if not ctx.quick:
         ctx.leanchecker(["SharkVerif.Props.C11"])
@@ -286,19 +417,35 @@ def run(ctx):
     corpus = load_corpus()
     ctx.cov["corpus_cases"] = len(corpus)
     r = ctx.rng.fork("c11")
-    ncoef, nrun, maxsteps, ntrace, tsteps, nconv, csteps = (120, 70, 40, 30, 12, 6, 400) if ctx.quick else (1500, 700, 150, 300, 40, 60, 600)
+    ncoef, nrun, maxsteps, ntrace, tsteps, nconv, csteps = (160, 110, 40, 30, 12, 10, 400) if ctx.quick else (2000, 900, 150, 300, 40, 80, 600)
     cases = list(corpus)
     cases += [gen_coeff_case(r) for _ in range(ncoef)]
-    cases += [gen_run_case(r, maxsteps) for _ in range(nrun)]
+    for _ in range(nrun):
+        ops, cls = gen_run_case(r, maxsteps)
+        cases.append(ops)
+        ctx.hist("population_class", cls["pop"]); ctx.hist("x0_class", cls["x0"])
+    for _ in range(18 if ctx.quick else 150):
+        cases.append(gen_directed_case(r)); ctx.hist("population_class", "directed-or-high-dim"); ctx.hist("x0_class", "far+small-sigma | n=20,40")
+    for _ in range(12 if ctx.quick else 60):
+        cases.append(gen_reuse_case(r)); ctx.hist("population_class", "default"); ctx.hist("x0_class", "reuse n>=30")
     cases += [gen_trace_case(r, tsteps) for _ in range(ntrace)]
+    cases += gen_model_traces(r, ctx.quick)
     cases += [gen_conv_case(r, csteps) for _ in range(nconv)]
     for c in cases:
         i = case_info(c)
-        ctx.hist("case_kind", i["kind"]); ctx.hist("optimizer", i["opt"])
+        ctx.hist("case_kind", i["kind"]); ctx.hist("optimizer", i["opt"] + ":" + i["kind"])
+        ctx.hist("dimension", i["n"])
+        if i["lambda"]:
+            ctx.hist("lambda_over_n", "default" if not i["lambda"] else min(i["lambda"] // max(i["n"], 1), 64) // 4 * 4)
         if i["kind"] != "coeffs":
-            ctx.hist("objective", i["obj"] + ("+box" if i["box"] else "")); ctx.hist("dimension", i["n"])
+            ctx.hist("objective", i["obj"] + ("+box" if i["box"] else ""))
             ctx.hist("steps", min(i["steps"] // 20 * 20, 400))
+            for o in c:
+                if o.startswith("opt ") and len(o.split()) >= 6:
+                    ctx.hist("initial_sigma", struct.unpack("<d", struct.pack("<Q", int(o.split()[5][1:], 16)))[0])
+                    ctx.hist("recombination", int(struct.unpack("<d", struct.pack("<Q", int(o.split()[4][1:], 16)))[0]))
     ctx.cov["evaluations"] = len(cases)
+    ctx.cov["runs_per_run_case"] = "7 (fresh, fresh, re-initialised used object, 3 exact rescalings; same seed)"
     ctx.cov["distinct_nontrivial"] = len({"\n".join(c) for c in cases if case_info(c)["kind"] == "coeffs" or case_info(c)["steps"] >= 5})
     ctx.sample({"ops": cases[len(cases) // 2][:4]})
     correspond(ctx, "K-C11", cases, [exe], [drv])
